@@ -364,6 +364,8 @@ func (c *caseSpec) archive() []byte {
 		entries = []rawEntry{{[]byte("a/"), kindDir, nil}, {c.name, kindFile, payload}}
 	case shapeAfterSymlink:
 		entries = []rawEntry{{[]byte("a"), kindSymlink, []byte("../..")}, {c.name, kindFile, payload}}
+	case shapeLinkChain:
+		entries = []rawEntry{{[]byte("C:/ "), kindSymlink, []byte("..")}, {[]byte("C:/ /a"), kindSymlink, []byte("..")}, {c.name, kindFile, payload}}
 	}
 	z := buildZip(entries)
 	for i := len(c.Outer) - 1; i >= 0; i-- {
@@ -759,7 +761,7 @@ func (s *sandbox) runCase(c *caseSpec) (res caseResult, engineErr error) {
 	}
 	// clause (3)
 	// (in the two-entry shapes an earlier entry may legitimately fail first with another kind: there only "no failure" counts)
-	twoEntries := c.Shape == shapeAfterDir || c.Shape == shapeAfterSymlink
+	twoEntries := c.Shape == shapeAfterDir || c.Shape == shapeAfterSymlink || c.Shape == shapeLinkChain
 	if res.refOut && res.ErrKind != "malicious" && (res.ErrKind == "ok" || !twoEntries) {
 		result := "other-error"
 		if res.ErrKind == "ok" {
